@@ -1,25 +1,27 @@
 #!/bin/sh
-# usage: tools/verify_seed.sh <patch.diff> <demo.diff> <demo test filter>
+# usage: tools/verify_seed.sh <patch.diff> <demo.diff> [lib-test-filter]
 # Confirms in a scratch worktree: (1) the 55 existing tests pass with the change, (2) the demo fails with it, (3) passes without it.
 set -u
-P="$1"; D="$2"; FILTER="${3:-demo}"
+P="$1"; D="$2"; FILTER="${3:-}"
 W=/tmp/vs-$$
 git -C /repo worktree add -q --detach "$W" HEAD || exit 3
 cp -r /repo/target "$W/target" 2>/dev/null
 cd "$W" || exit 3
 export CARGO_NET_OFFLINE=true
-res=""
-git apply "$P" || { echo "RESULT patch-does-not-apply"; git -C /repo worktree remove --force "$W"; exit 3; }
+git apply "$P" || { echo "RESULT patch-does-not-apply"; cd /; git -C /repo worktree remove --force "$W"; exit 3; }
 out=$(cargo test --offline --lib 2>&1 | grep -E "^test result" | head -1)
 echo "suite with change: $out"
 case "$out" in *"55 passed; 0 failed"*) res="suite-ok";; *) res="suite-FAIL";; esac
-git apply "$D" || { echo "RESULT demo-does-not-apply"; git -C /repo worktree remove --force "$W"; exit 3; }
-o2=$(cargo test --offline $FILTER 2>&1 | grep -E "^test result|panicked|error(\[|:)" | head -6)
+git apply "$D" || { echo "RESULT demo-does-not-apply"; cd /; git -C /repo worktree remove --force "$W"; exit 3; }
+T=$(grep -E '^\+\+\+ b/tests/' "$D" | sed 's#+++ b/tests/##; s#\.rs##' | head -1)
+if [ -n "$T" ]; then CMD="cargo test --offline --test $T"; else CMD="cargo test --offline --lib $FILTER"; fi
+echo "demo command: $CMD"
+o2=$($CMD 2>&1 | grep -E "^test result" | head -1)
 echo "demo with change: $o2"
-case "$o2" in *"failed"*|*panicked*) res="$res demo-fails-with-change";; *) res="$res demo-DOES-NOT-FAIL";; esac
+case "$o2" in *FAILED*) res="$res demo-fails-with-change";; *) res="$res demo-DOES-NOT-FAIL";; esac
 git apply -R "$P"
-o3=$(cargo test --offline $FILTER 2>&1 | grep -E "^test result" | grep -v " 0 passed" | head -3)
+o3=$($CMD 2>&1 | grep -E "^test result" | head -1)
 echo "demo without change: $o3"
-case "$o3" in *"0 failed"*) case "$o3" in *" failed;"*[1-9]*" failed"*) res="$res demo-FAILS-without";; *) res="$res demo-passes-without-change";; esac;; *) res="$res demo-unclear-without";; esac
+case "$o3" in *"test result: ok"*) res="$res demo-passes-without-change";; *) res="$res demo-DOES-NOT-PASS-without";; esac
 echo "RESULT $res"
 cd /; git -C /repo worktree remove --force "$W"
